@@ -20,6 +20,7 @@ type Obj struct {
 	HasMax bool
 	Max    uint32
 	Elem   byte
+	Shared bool // memories: the threads proposal's shared flag
 	Mut    bool
 	VT     byte
 	Val    uint64 // immutable globals: the value (known by design)
@@ -66,6 +67,7 @@ type Import struct {
 	HasMax bool   `json:"hasmax"`
 	Max    uint32 `json:"max"`
 	Elem   byte   `json:"elem"`
+	Shared bool   `json:"shared"` // memory imports: declared shared (limits flag 0x03)
 	Mut    bool   `json:"mut"`
 	VT     byte   `json:"vt"`
 	SigS   string `json:"sig"`
@@ -75,6 +77,7 @@ type Import struct {
 	XHasMax bool   `json:"xhasmax"`
 	XMax    uint32 `json:"xmax"`
 	XElem   byte   `json:"xelem"`
+	XShared bool   `json:"xshared"`
 	XMut    bool   `json:"xmut"`
 	XVT     byte   `json:"xvt"`
 	XSig    string `json:"xsig"`
@@ -120,6 +123,7 @@ type LMod struct {
 	MMin    uint32
 	MHasMax bool
 	MMax    uint32
+	MShared bool
 	Globals []GDef
 	Elems   []ElemSeg
 	Datas   []DataSeg
@@ -132,6 +136,8 @@ type LMod struct {
 	TObj *Obj
 	Exports map[string]*Obj
 	NImpF, NImpG int
+	IsHost    bool  // live-frame family: the host module (never encoded)
+	DeclFuncs []int // functions named by ref.func (a declarative element segment)
 }
 
 func w(t byte) int {
@@ -173,6 +179,14 @@ func limitsBin(min uint32, hasmax bool, max uint32) []byte {
 	return c.MemLimits(min, nil)
 }
 
+// memLimitsBin: limits of a memory type; a shared memory (flag 0x03) always declares its maximum
+func memLimitsBin(min uint32, hasmax bool, max uint32, shared bool) []byte {
+	if shared {
+		return c.Cat(c.B(3), c.U32(min), c.U32(max))
+	}
+	return limitsBin(min, hasmax, max)
+}
+
 func (m *LMod) HasMem() bool { return m.MObj != nil }
 func (m *LMod) HasTab() bool { return m.TObj != nil }
 
@@ -211,7 +225,7 @@ func (m *LMod) Encode() []byte {
 		case 1:
 			mod.Imports = append(mod.Imports, c.Cat(c.Name(mn), c.Name(im.Name), c.B(1, im.Elem), limitsBin(im.Min, im.HasMax, im.Max)))
 		case 2:
-			mod.Imports = append(mod.Imports, c.Cat(c.Name(mn), c.Name(im.Name), c.B(2), limitsBin(im.Min, im.HasMax, im.Max)))
+			mod.Imports = append(mod.Imports, c.Cat(c.Name(mn), c.Name(im.Name), c.B(2), memLimitsBin(im.Min, im.HasMax, im.Max, im.Shared)))
 		case 3:
 			mu := byte(0)
 			if im.Mut {
@@ -238,7 +252,7 @@ func (m *LMod) Encode() []byte {
 		mod.Exports = append(mod.Exports, c.Export("tab", 1, 0))
 	}
 	if m.OwnMem {
-		mod.Mems = [][]byte{limitsBin(m.MMin, m.MHasMax, m.MMax)}
+		mod.Mems = [][]byte{memLimitsBin(m.MMin, m.MHasMax, m.MMax, m.MShared)}
 	}
 	if m.HasMem() {
 		mod.Exports = append(mod.Exports, c.Export("mem", 2, 0))
@@ -262,6 +276,13 @@ func (m *LMod) Encode() []byte {
 			fs = append(fs, c.U32(uint32(f)))
 		}
 		mod.Elems = append(mod.Elems, c.Cat(c.U32(0), e.Off.bin(), c.Vec(fs...)))
+	}
+	if len(m.DeclFuncs) > 0 {
+		fs := [][]byte{}
+		for _, f := range m.DeclFuncs {
+			fs = append(fs, c.U32(uint32(f)))
+		}
+		mod.Elems = append(mod.Elems, c.Cat(c.U32(3), c.B(0), c.Vec(fs...)))
 	}
 	for _, d := range m.Datas {
 		mod.Datas = append(mod.Datas, c.Cat(c.U32(0), d.Off.bin(), c.U32(uint32(len(d.Bytes))), d.Bytes))
@@ -291,7 +312,7 @@ func (m *LMod) Coq() string {
 		case 1:
 			d = fmt.Sprintf("ITable %d %s %d %d", im.Min, coqBool(im.HasMax), im.Max, im.Elem)
 		case 2:
-			d = fmt.Sprintf("IMem %d %s %d", im.Min, coqBool(im.HasMax), im.Max)
+			d = fmt.Sprintf("IMem %d %s %d %s", im.Min, coqBool(im.HasMax), im.Max, coqBool(im.Shared))
 		case 3:
 			d = fmt.Sprintf("IGlobal %s %d", coqBool(im.Mut), w(im.VT))
 		}
@@ -306,7 +327,7 @@ func (m *LMod) Coq() string {
 		tab = fmt.Sprintf("(Some (%d, %s, %d))", m.TMin, coqBool(m.THasMax), m.TMax)
 	}
 	if m.OwnMem {
-		mem = fmt.Sprintf("(Some (%d, %s, %d))", m.MMin, coqBool(m.MHasMax), m.MMax)
+		mem = fmt.Sprintf("(Some (%d, %s, %d, %s))", m.MMin, coqBool(m.MHasMax), m.MMax, coqBool(m.MShared))
 	}
 	var gs []string
 	for _, g := range m.Globals {
